@@ -11,6 +11,8 @@ R05.4 storage-access provenance: StorageWrite / SLoad / UnwrittenStorageValue ar
       storage's store / load are called only by the SSTORE / SLOAD opcodes, which are disassembled only from bytes 0x55 / 0x54.
 R05.6 executed means EVM-reachable: the control-flow rules of C08 (validated jump targets, halting opcodes, failed instructions
       end the path) are re-evaluated: a storage instruction executed in unreachable code is a phantom access.
+R05.7 a run starts empty: a whole-pipeline entry point of the type checker that takes `&mut self` resets the state before its
+      first stage, so no value (hence no slot) of an earlier run is reported for the next execution result.
 R05.5 key rewriting stays under a storage access: in passes that replace hashes by computed constants, the replacing function is
       referenced only from the key position of storage-access arms (or from itself / pure helpers).
 """
@@ -97,6 +99,44 @@ def field_position(ps, stop_struct_adt=SVD):
             # the node itself may be the field dict's expr
             return anc.get("variant"), None
     return None
+
+
+def check_fresh_run(fx, rep, rule):
+    """A whole-pipeline entry point of the type checker that can be called again on the same object (`&mut self`) starts from
+    an empty state: otherwise the values - and slots - of an earlier run are reported for the next execution result."""
+    STATE = "tc::state::TypeCheckerState"
+    n = 0
+    for b in fx.fn_bodies():
+        if b.get("impl_self") != "tc::TypeChecker" or not b.get("hir"):
+            continue
+        fn = fx.fns.get(b["def"], {})
+        if "StorageLayout" not in (fn.get("output") or ""):
+            continue
+        root = b["hir"]["value"]
+        stage_calls = [(c, ps) for c, ps in F.calls(root) if (F.callee_def(c) or "").startswith("tc::TypeChecker::") and c.get("k") == "MethodCall"]
+        names = [F.callee_def(c).split("::")[-1] for c, _ in stage_calls]
+        if "lift" not in names:
+            continue  # not a whole-pipeline entry
+        n += 1
+        rep.fn(b["def"])
+        inputs = fn.get("inputs") or [""]
+        by_value = not inputs[0].startswith("&")
+        first = min(T._span_key(c["span"])[1] for c, _ in stage_calls)
+        reset = False
+        for a, _ in F.walk(root):
+            if a.get("k") == "Assign" and a["l"].get("k") == "Field" and a["l"].get("field") == "state" and T._span_key(a["span"])[2] <= first:
+                r = F.strip(a["r"])
+                if r.get("k") == "Call" and not r["args"] and F.strip_generics(F.callee_def(r) or "").startswith(STATE + "::"):
+                    reset = True
+        rep.oblige(
+            by_value or reset,
+            rule,
+            f"fresh-run:{F.strip_generics(b['def'])}",
+            F.loc(b["span"]),
+            f"`{b['def']}` can be called again on the same checker and does not start from an empty state: the slots of an earlier run are reported for the next execution result",
+            sample={"rule": rule, "fn": b["def"], "takes_self_by_value": by_value, "resets_state_first": reset},
+        )
+    rep.floor(rule, n, 1, "whole-pipeline entry points of the type checker")
 
 
 def check(fx, rep, tier):
@@ -329,6 +369,8 @@ def check(fx, rep, tier):
         bad = [e for e in eps if e[1] != "key"]
         rep.oblige(not bad, "R05.5", f"hash-to-constant:{F.strip_generics(b['def'])}", F.loc(b["span"]), f"`{b['def']}` replaces a hash by a computed constant and is reachable through {[(F.strip_generics(e[0]).split('::')[-1], e[1]) for e in bad][:2]}: constants computed from look-alike hashes outside a storage key can become slots", sample={"rule": "R05.5", "fn": b["def"], "entries": [(F.strip_generics(e[0]).split('::')[-1], e[1]) for e in eps]})
     rep.extra["hash_to_constant_functions"] = n55
+    # ---------------------------------------------------------------- R05.7
+    check_fresh_run(fx, rep, "R05.7")
     # ---------------------------------------------------------------- R05.6 (shared with C08)
     # "a storage access the analysed code performs": an SLOAD / SSTORE the machine executes in code the EVM can never
     # reach (a truncated jump target, a path that survives a failed or halting instruction) is a phantom access. The
